@@ -366,14 +366,17 @@ func (r *Run) Finish() {
 	}
 	fmt.Printf("%s %s: evals=%d states=%d transitions=%d nontrivial=%d outcomes=%d known=%d violations=%d exhaustive=%v wall=%.1fs\n",
 		r.ID, r.Tier, p.Evals, states, p.Transitions, nontriv, len(outc), nKnown, nViol, r.Exhaustive, time.Since(r.start).Seconds())
-	if len(p.HarnessErrs) > 0 {
-		for _, e := range p.HarnessErrs {
-			fmt.Fprintf(os.Stderr, "harness error: %s\n", e)
-		}
-		os.Exit(2)
+	for _, e := range p.HarnessErrs {
+		fmt.Fprintf(os.Stderr, "harness error: %s\n", e)
 	}
+	// a reported violation decides the exit status: a change that makes the library nondeterministic
+	// (e.g. a buffer whose reuse depends on map-ordered sizes) also trips the determinism self-checks,
+	// and that must not turn exit 1 into exit 2
 	if nViol > 0 {
 		os.Exit(1)
+	}
+	if len(p.HarnessErrs) > 0 {
+		os.Exit(2)
 	}
 	os.Exit(0)
 }
